@@ -42,8 +42,11 @@ struct LogDrv {
     r: String,
     log: Arc<Mutex<Vec<J>>>,
     /// microseconds every cycle spends in the driver (0 = none): widens the window in which a command
-    /// arrives while the resource is in the middle of a cycle
-    slow_us: u64,
+    /// arrives while the resource is in the middle of a cycle.  Switched on by the controller only for the
+    /// final stop phase: the driver runs inside the cycle, i.e. under the shared-globals lock, and std's
+    /// mutex is not fair -- slow cycles during the rest of the run could starve one resource for a long time,
+    /// which no clause of the property forbids.
+    slow_us: Arc<AtomicU64>,
 }
 impl IoDriver for LogDrv {
     fn read_inputs(&mut self, _inputs: &mut [u8]) -> Result<(), RuntimeError> {
@@ -52,8 +55,9 @@ impl IoDriver for LogDrv {
     fn write_outputs(&mut self, o: &[u8]) -> Result<(), RuntimeError> {
         let d = |k: usize| i32::from_le_bytes([o[k], o[k + 1], o[k + 2], o[k + 3]]);
         self.log.lock().unwrap().push(json!({"r": self.r, "a": d(0), "b": d(4), "n": d(8)}));
-        if self.slow_us > 0 {
-            std::thread::sleep(std::time::Duration::from_micros(self.slow_us));
+        let slow = self.slow_us.load(Ordering::SeqCst);
+        if slow > 0 {
+            std::thread::sleep(std::time::Duration::from_micros(slow));
         }
         Ok(())
     }
@@ -151,6 +155,7 @@ fn one_run(rng: &mut StdRng) -> Result<J, String> {
     let interval = if rng.gen_bool(0.5) { 0 } else { 1 };
     let gated = rng.gen_bool(0.2);
     let slow_us = if rng.gen_bool(0.35) { [200u64, 600, 1500][rng.gen_range(0..3)] } else { 0 };
+    let slow_switch = Arc::new(AtomicU64::new(0));
     let rt0 = TestHarness::from_source(SRC).map_err(|e| e.to_string())?.into_runtime();
     let shared = SharedGlobals::from_runtime(vec!["a".into(), "b".into()], &rt0).map_err(|e| e.to_string())?;
     let clock = ManualClock::new();
@@ -162,7 +167,7 @@ fn one_run(rng: &mut StdRng) -> Result<J, String> {
     for name in &names {
         let mut rt = TestHarness::from_source(SRC).map_err(|e| e.to_string())?.into_runtime();
         rt.io_mut().resize(0, 12, 0);
-        rt.add_io_driver(name.clone(), Box::new(LogDrv { r: name.clone(), log: log.clone(), slow_us }));
+        rt.add_io_driver(name.clone(), Box::new(LogDrv { r: name.clone(), log: log.clone(), slow_us: slow_switch.clone() }));
         let cnt = Arc::new(AtomicU64::new(0));
         rt.set_retain_store(Some(Box::new(CountStore(cnt.clone()))), None);
         saves.push(cnt);
@@ -278,6 +283,9 @@ fn one_run(rng: &mut StdRng) -> Result<J, String> {
     // resource wakes up and starts a cycle), the stop follows after a moment, and the clock then moves by LESS
     // than an interval.  Nobody touches the clock afterwards: the stop itself has to get the thread out.
     let mid_cycle = interval > 0 && rng.gen_bool(0.5);
+    if mid_cycle {
+        slow_switch.store(slow_us, Ordering::SeqCst);
+    }
     for r in 0..nres {
         if !gated_stop[r] {
             if mid_cycle {
